@@ -179,3 +179,20 @@ PROPS["C01"] = {
         {"name": "TestProp_C01_Sweep", "kind": "plain", "quick": {"shards": 8, "timeout": 500}, "thorough": {"shards": 16, "timeout": 3000}},
     ],
 }
+
+PROPS["C15"] = {
+    "level": "exploration",
+    "technique": "property-based testing (rapid) + exhaustive sender x receiver tag-class matrix over every message kind, with an authenticated reference peer (valid MACs under arbitrary tags), a second client instance, and forced outputs of the randomness source for the own tag; differential check of the public tag-extraction helper against what the reference wrote",
+    "level_text": "tag classes {0, 1..0xff, own, peer's, other valid, 0x100, 0xffffffff} on key-exchange messages, data messages with valid MAC and fragments, before and after binding; oracle on binding, isolation (no plaintext/reply/rebinding, genuine traffic unaffected) and ExtractInstanceTags",
+    "level_note": "binding on a well-formed message of another instance that arrives first is allowed by the statement and only counted",
+    "rule": ("steps: hostile AKE-shaped message of another instance with chosen tags, genuine handshake (either starter), genuine text, victim send, authenticated data message with other tags, plaintext-payload fragments with chosen tags, negative inputs for the helper. "
+             "Oracle: own tag >= 0x100 whatever 4-byte values the randomness source offers first; a malformed-tag message never changes GetTheirInstanceTag nor is acted on, and a genuine handshake afterwards succeeds; once bound, foreign sender / foreign non-zero receiver: no plaintext, no reply, no rebinding, next genuine messages both ways still work; "
+             "messages with acceptable tags (peer's tag, receiver 0 or own) are delivered; ExtractInstanceTags returns exactly the (receiver, sender) tags written, ok=false for inputs without tags, never panics. "
+             "Non-trivial: a hostile-tag message preceded the genuine handshake or a foreign message arrived in encrypted state."),
+    "assumptions": COMMON_ASSUME,
+    "exhaustive_checks": ["C15matrix"],
+    "tests": [
+        {"name": "TestProp_C15_Tags", "quick": {"shards": 8, "checks": 120, "timeout": 500}, "thorough": {"shards": 16, "checks": 3000, "timeout": 3000}},
+        {"name": "TestProp_C15_Matrix", "kind": "plain", "quick": {"shards": 8, "timeout": 500}, "thorough": {"shards": 16, "timeout": 3000}},
+    ],
+}
